@@ -417,11 +417,13 @@ Print Assumptions C14_put_stages_commute.
 (* C14_put_output_normal.  FULL STATEMENT (false, see the two counterexamples below):
      forall s s', put_model s = Some s' -> exists z, s' = print_node [] z /\ normal_form z.
    PROVED with the side condition C14Compose.put_side_ok, a computable predicate of the uploaded text: the two
-   conditions above, and -- CHECKED, not derived, on the tree that is printed -- parameter names distinct within a line
-   and, with the parameters sorted as print_cl writes them (z below is that tree: the one the next read builds; the three
-   stages are proved blind to the order of distinctly named parameters, Proofs/C14Compose.v section 6b): one top-level
-   component, every line well-formed (non-empty parameter values: known class C14:empty-param), no vCard PHOTO line,
-   no control character / data: prefix left in the text, no quoted-printable, outside the known class C14:fold-ws.
+   conditions above, and -- CHECKED, not derived, on the tree that is printed, with the parameters sorted as print_cl
+   writes them (z below is that tree: the one the next read builds) --: every line well-formed (name characters, non-empty
+   parameter values without DQUOTE: outside the known class C14:empty-param, no line break), no long vCard PHOTO line
+   (vobject never folds it), no control character / data: prefix left in the text, no quoted-printable, outside the known
+   class C14:fold-ws.  DERIVED (Proofs/C14Compose.v): the tree is one component with upper-case component names (4c/6c:
+   build, and every stage keeps it); the reference DTSTARTs stay consistent (4b); distinct parameter names follow from the
+   line check (6d); the three stages are blind to the order of distinctly named parameters and so is printing (6b).
    checks/C14.py evaluates the predicate by vm_compute on every stored text of the put_model stream (suite
    `stored_normal`) and requires it to hold outside the three documented classes. *)
 Theorem C14_put_output_normal : forall s s',
